@@ -45,7 +45,7 @@ var optScenarios = []optScenario{
 	// valid option maps with several entries: the OUTPUT must not depend on their iteration order either
 	{"valid-maps", map[string]interface{}{"Define": 4, "Loader": 3, "Supported": 3, "Banner": 2, "Footer": 2, "LogOverride": 3, "Alias": 2}, func() api.BuildOptions {
 		return api.BuildOptions{Outdir: "out", Bundle: true, Metafile: true,
-			Define:       map[string]string{"a.x": "1", "b.x": "2", "process.env.NODE_ENV": "\"p\"", "c.y.x": "3", "GLOBAL_FLAG": "true",
+			Define: map[string]string{"a.x": "1", "b.x": "2", "process.env.NODE_ENV": "\"p\"", "c.y.x": "3", "GLOBAL_FLAG": "true",
 				"CONFIG_A": "{\"a\": [1, 2]}", "CONFIG_B": "[1, {\"b\": 2}]", "CONFIG_C": "{\"c\": null}", "CONFIG_D": "[4]"},
 			Loader:       map[string]api.Loader{".js": api.LoaderJS, ".txt": api.LoaderText, ".data": api.LoaderBase64},
 			Supported:    map[string]bool{"arrow": false, "bigint": true, "nesting": false, "template-literal": false},
